@@ -3,6 +3,9 @@
 package cl
 
 import (
+	"strings"
+	"unicode"
+
 	"github.com/ohler55/ojg/sen"
 	"github.com/ohler55/slip"
 )
@@ -42,8 +45,44 @@ type Sxhash struct {
 func (f *Sxhash) Call(s *slip.Scope, args slip.List, depth int) (result slip.Object) {
 	slip.CheckArgCount(s, depth, f, args, 1, 1)
 	var h uint64
-	for _, b := range sen.Bytes(slip.SimpleObject(args[0])) {
+	for _, b := range sen.Bytes(hashData(args[0])) {
 		h += uint64(0xdf & b) // mask 0x20 to ignore ascii case, for others it doesn't matter
 	}
 	return slip.Fixnum(h & 0x7fffffffffffffff)
+}
+
+// hashData returns simple data for an object such that objects that are equal
+// have the same data. Strings and symbols are equal when they only differ in
+// case as determined by strings.EqualFold() so each rune is replaced by the
+// lowest rune that folds to it.
+func hashData(obj slip.Object) any {
+	switch to := obj.(type) {
+	case nil:
+		return nil
+	case slip.String:
+		return strings.Map(foldRune, string(to))
+	case slip.Symbol:
+		return strings.Map(foldRune, string(to))
+	case slip.List:
+		data := make([]any, len(to))
+		for i, e := range to {
+			data[i] = hashData(e)
+		}
+		return data
+	case slip.Tail:
+		return hashData(to.Value)
+	case *slip.Vector:
+		return hashData(to.AsList())
+	}
+	return obj.Simplify()
+}
+
+func foldRune(r rune) rune {
+	low := r
+	for f := unicode.SimpleFold(r); f != r; f = unicode.SimpleFold(f) {
+		if f < low {
+			low = f
+		}
+	}
+	return low
 }
